@@ -643,6 +643,14 @@ class Normaliser:
             return True, ("cmpchain", tuple(parts))
         if isinstance(n, ast.BoolOp):
             return _bool_form(type(n.op).__name__, [self.test(v, benv) for v in n.values])
+        if isinstance(n, ast.IfExp) and any(isinstance(x, ast.Constant) and isinstance(x.value, bool) for x in (n.body, n.orelse)):
+            # as a truth value: `True if a else b` is `a or b`, `False if a else b` is `not a and b`, `b if a else True` is `not a or b`, `b if a else False` is `a and b`
+            neg = ast.UnaryOp(op=ast.Not(), operand=n.test)
+            if isinstance(n.body, ast.Constant) and isinstance(n.body.value, bool):
+                new = ast.BoolOp(op=ast.Or(), values=[n.test, n.orelse]) if n.body.value else ast.BoolOp(op=ast.And(), values=[neg, n.orelse])
+            else:
+                new = ast.BoolOp(op=ast.Or(), values=[neg, n.body]) if n.orelse.value else ast.BoolOp(op=ast.And(), values=[n.test, n.body])
+            return self.test(new, benv)
         if isinstance(n, (ast.ListComp, ast.List, ast.Dict, ast.DictComp, ast.Set, ast.SetComp, ast.Tuple)) or \
                 (isinstance(n, ast.Call) and isinstance(n.func, ast.Name) and n.func.id in ("list", "dict", "tuple", "set", "sorted", "frozenset") and n.func.id not in benv) or \
                 (isinstance(n, ast.Call) and isinstance(n.func, ast.Attribute) and n.func.attr in SIZED_RESULT_METHODS):
